@@ -13,6 +13,7 @@ FAMILY_DEFAULTS = {
     "flat": dict(MaxNodes=4, MaxDepth=2, DepthLimits={3}, LoopLimits={3}, VarLimits={3}, StrMode=False, InitVal=0),
     "loop": dict(MaxNodes=3, MaxDepth=3, DepthLimits={6}, LoopLimits={2}, VarLimits={3}, StrMode=False, InitVal=0),
     "scope": dict(MaxNodes=4, MaxDepth=3, DepthLimits={8}, LoopLimits={4}, VarLimits={3}, StrMode=False, InitVal=0),
+    "scope0": dict(MaxNodes=4, MaxDepth=3, DepthLimits={8}, LoopLimits={4}, VarLimits={3}, StrMode=False, InitVal=-1),
     "order": dict(MaxNodes=4, MaxDepth=2, DepthLimits={8}, LoopLimits={4}, VarLimits={3}, StrMode=False, InitVal=-1),
     "reuse": dict(MaxNodes=4, MaxDepth=3, DepthLimits={8}, LoopLimits={4}, VarLimits={3}, StrMode=False, InitVal=0),
     "rng": dict(MaxNodes=4, MaxDepth=3, DepthLimits={8}, LoopLimits={4}, VarLimits={3}, StrMode=False, InitVal=0),
@@ -131,7 +132,8 @@ class Conc:
             return self.varied_leaf(n)
         if k == "leaf":
             a = [f'id="n{i}"'] if not n["href"] else [f'id="r{n["href"]}"']
-            a.append(f'class="p{i}"' if not n["href"] else f'class="p{i} n{i}"')
+            a.append(f'class="p{i}"' if not n["href"] else
+                     (f'class="p{i} rc{n["href"]} n{i}"' if n["href"] % 2 == 0 else f'class="p{i} n{i}"'))
             if n["ref"] == -1:
                 a.append('xy="^|h 1"')
             elif n["ref"]:
@@ -152,7 +154,7 @@ class Conc:
             return f'<rect {" ".join(a)}/>{nl}'
         kids = "".join(self.node(c) for c in n["ch"])
         if k == "g":
-            a = [f'id="n{i}"'] if not n["href"] else [f'id="r{n["href"]}"', f'class="n{i}"']
+            a = [f'id="n{i}"'] if not n["href"] else [f'id="r{n["href"]}"', (f'class="rc{n["href"]} n{i}"' if n["href"] % 2 == 0 else f'class="n{i}"')]
             a += [f'{x}="{v}"' for x, v in n["loc"]]
             if not n["ch"] and self.rnd.random() < 0.5:
                 return f'<g {" ".join(a)}/>{nl}'
@@ -186,6 +188,8 @@ class Conc:
             return f'<loop {" ".join(a)}>{kids}</loop>{nl}'
         if k == "reuse":
             a = [f'id="r{i}"', f'href="#n{n["href"]}"'] + [f'{x}="{v}"' for x, v in n["loc"]]
+            if i % 2 == 0:
+                a.append(f'class="rc{i}"')     # classes of the reuse element are inherited by the instance
             return f'<reuse {" ".join(a)}/>{nl}'
         if k == "specs":
             return f'<specs>{kids}</specs>{nl}'
@@ -593,7 +597,10 @@ def norm_tree(out):
         res = []
         for c in n.children:
             if c.kind == "el":
-                res.append((c.name, tuple(sorted(c.attrs.items())), tuple(walk(c))))
+                attrs = dict(c.attrs)
+                if "class" in attrs:
+                    attrs["class"] = " ".join(sorted(attrs["class"].split()))
+                res.append((c.name, tuple(sorted(attrs.items())), tuple(walk(c))))
             elif c.kind in ("text", "cdata"):
                 if c.text.strip():
                     res.append(("#text", c.text.strip()))
